@@ -186,7 +186,12 @@ func (w *World) ExecMsg(ctx sdk.Context, msg sdk.Msg, o ExecOpts) (next sdk.Cont
 			out = errOutcome(err)
 			return
 		}
-		out = Outcome{Class: OK, Events: mc.EventManager().ABCIEvents(), Resp: res}
+		evs := mc.EventManager().ABCIEvents()
+		if res != nil {
+			// the msg service router runs the handler on its own event manager and returns the events in the result
+			evs = append(evs, res.Events...)
+		}
+		out = Outcome{Class: OK, Events: evs, Resp: res}
 	}()
 	if out.Class == OK {
 		write()
